@@ -84,6 +84,8 @@ def make_case(tier, seed, index):
                 steps.append({"op": "close"})   # the first thing done from the new loop is close()
         elif x < 0.5:
             steps.append({"op": "sleep", "d": rnd.choice([tau / 2, tau, 3 * tau, 10.0])})
+        elif x < 0.58:
+            steps.append({"op": "toggle"})   # the application switches keep-alive on/off between requests
         faults = []
         if enabled and rnd.random() < 0.7:
             for _ in range(rnd.randint(1, 4)):
@@ -150,6 +152,9 @@ def run_case(case):
             if s["op"] == "sleep":
                 await asyncio.sleep(s["d"])
                 log.append((i, "sleep", None))
+            elif s["op"] == "toggle":
+                proto.keep_alive = not proto.keep_alive
+                log.append((i, "toggle", None))
             elif s["op"] == "close":
                 await proto.close()
                 log.append((i, "close", open_count()))
@@ -172,6 +177,7 @@ def run_case(case):
                 net.begin_script(s["faults"], {"k": "ok"}, s["connects"])
                 rec = await C.do_execute(world, proto, {"op": "read", "reg": 35100 + i, "count": 2}, "req%d" % i)
                 rec["open_after"] = open_count()
+                rec["ka"] = bool(proto.keep_alive)
                 rec["step"] = i
                 log.append((i, "req", rec))
 
@@ -226,6 +232,7 @@ def run_case(case):
         if kind == "req":
             rec = info
             s = case["steps"][i]
+            ka = rec["ka"]
             if not ka and rec["open_after"] != 0:
                 violations.append(viol(f"C10:left-open:{tr}:{rec['outcome']}",
                                        f"keep-alive off: {rec['open_after']} transport(s) open after request at step {i} "
@@ -270,14 +277,15 @@ def run_case(case):
             if info != 0:
                 violations.append(viol(f"C10:open-after-close:{tr}", f"{info} transport(s) open after close() at step {i}"))
             between_clean = False
-        elif kind == "newloop":
+        elif kind in ("newloop", "toggle"):
             between_clean = False
+    ka = case["keep_alive"]
     kinds = tuple((s["op"],) + tuple(f["k"] for f in s.get("faults", ())) + tuple(c["k"] for c in s.get("connects", ()))
                   for s in case["steps"])
     outcomes = tuple(info["outcome"] for (_, k, info) in log if k == "req")
     sig = (tr, ka, r, kinds, outcomes, len(net.transports))
     nontrivial = any(s["op"] in ("close", "newloop") or s.get("faults") or s.get("connects") for s in case["steps"])
     probes = {"transports_opened": len(net.transports), "close_calls": sum(1 for s in case["steps"] if s["op"] == "close"),
-              "loop_changes": len(segs) - 1,
+              "loop_changes": len(segs) - 1, "keep_alive_toggles": sum(1 for s in case["steps"] if s["op"] == "toggle"),
               "reuse_checked": 0, "final_ok": 1 if outcomes and outcomes[-1] == "result" else 0}
     return C.package(world, case, violations, sig, nontrivial, probes)
